@@ -304,6 +304,8 @@ MUTANTS += [
     M("to_numpy returns something else on the fallback path", _U, "except (ValueError, NotImplementedError):\n        return np.asarray(x, **kwargs)", "except (ValueError, NotImplementedError):\n        return np.zeros_like(x)", "C15.helpers"),
 ]
 NEUTRALS = [
+    M("to_namespace builds its keywords first", _S, "return self.__class__(\n            x=self.x,\n            parameters=self.parameters,\n            log_likelihood=self.log_likelihood,\n            log_prior=self.log_prior,\n            log_q=self.log_q,\n            xp=xp,\n            device=self.device,\n            dtype=dtype,\n        )",
+      "kw = dict(x=self.x, parameters=self.parameters, log_likelihood=self.log_likelihood, log_prior=self.log_prior, log_q=self.log_q)\n        kw[\"xp\"] = xp\n        kw[\"device\"] = self.device\n        kw[\"dtype\"] = dtype\n        return self.__class__(**kw)"),
     M("to_namespace keyword order", _S, "xp=xp,\n            device=self.device,\n            dtype=dtype,", "dtype=dtype,\n            xp=xp,\n            device=self.device,"),
 ]
 
